@@ -59,7 +59,7 @@ def big_points(name, tier):
             for c in CLS:
                 add({'m': m, 't': t, 'n': n, 'cls': c})
     elif name == 'c01.count':
-        for (M, p) in ((10, 2), (12, 3), (11, 11), (12, 4), (10, 5)):
+        for (M, p) in ((10, 2), (12, 2), (11, 11), (10, 10), (12, 12)):
             for c in CLS:
                 add({'M': M, 'p': p, 'cls': c})
     elif name == 'c01.matching':
